@@ -356,7 +356,7 @@ impl<K: KeyT, V: ValT> World<K, V> {
         };
         e.insert("res".into(), res);
         // "big": 1 when a usize argument is given relative to usize::MAX / isize::MAX
-        let big = ["n", "cap"].iter().any(|f| op.get(*f).map_or(false, |v| v.is_object()));
+        let big = ["n", "cap", "hint"].iter().any(|f| op.get(*f).map_or(false, |v| v.is_object()));
         e.insert("big".into(), json!(big as u8));
         for (k, v) in extra {
             e.insert(k.into(), v);
